@@ -155,7 +155,8 @@ pub fn gen_config(seeds: &[u16], force_valid: bool) -> GenCfg {
     let mut password = None;
     match mode(&mut s, 50, pi) {
         0 => {
-            let p = ["srvpass", "p\u{e4}ssw\u{f6}rd", "long long long password with spaces"][s.pick(3)].to_string();
+            // (blanks at either end are part of a password)
+            let p = ["srvpass", "p\u{e4}ssw\u{f6}rd", "long long long password with spaces", "ends with a blank ", " starts with a blank"][s.pick(5)].to_string();
             t += &format!("password = {}\n", q(&hash_of(&p)));
             password = Some(p);
         }
@@ -690,7 +691,13 @@ pub fn check_govern(c: &CfgCase, st: &mut Stats) -> Result<(), Viol> {
     if g.password.is_some() {
         match try_pw {
             0 => w.send_line(conn, &format!("PASS :{}", g.password.clone().unwrap())),
-            1 => w.send_line(conn, "PASS :definitely wrong"),
+            1 => {
+                // a wrong password: unrelated, or the right one with a blank added / removed
+                let right = g.password.clone().unwrap();
+                let near = if right.trim() != right { right.trim().to_string() } else { format!("{} ", right) };
+                let wrong = if s.chance(50) { "definitely wrong".to_string() } else { near };
+                w.send_line(conn, &format!("PASS :{}", wrong));
+            }
             _ => {}
         }
     }
